@@ -12,9 +12,10 @@ EXTENDS Query, Json, IOUtils
 
 Insts == ndJsonDeserialize(IOEnv.INST)
 Obs == ndJsonDeserialize(IOEnv.OBS)
-VARIABLE i
-Init == i \in 1..Len(Insts)
-Next == UNCHANGED i
+\* two phases so that the (expensive) verdict of each instance is computed by a TLC worker, in parallel
+VARIABLES i, ph
+Init == i \in 1..Len(Insts) /\ ph = 0
+Next == ph = 0 /\ ph' = 1 /\ i' = i
 
 Decl(o) == [j \in 1..Len(o.declared) |-> <<o.declared[j][1], JT(o.declared[j][2])>>]
 Say(id, cls, detail) == PrintT(<<"VERDICT", id, cls, detail>>)
@@ -32,5 +33,5 @@ Verdict(k) ==
           /\ IF "pruned" \in DOMAIN o
              THEN (IF BagEq(sem, o.pruned) THEN Say(id, "C04.ok", Len(sem)) ELSE Say(id, "C04.mismatch", ToJson(sem)))
              ELSE TRUE
-Judged == Verdict(i)
+Judged == ph = 0 \/ Verdict(i)
 =============================================================================
